@@ -39,6 +39,10 @@ type Opts struct {
 	FullWidth bool // sometimes fill strings to their full width / numerics to max
 	Offset    bool // sometimes configure a batch Offset (PPD, CCD, CTX, WEB forward batches)
 
+	// IATCorrections: IAT notification-of-change batches (header IATIndicator "IATCOR", class COR, entries carrying an
+	// Addenda98 next to the seven mandatory addenda) are drawn when "IAT" and the NOC category are admitted.
+	IATCorrections bool
+
 	PresetTraces    bool // sometimes pre-set valid ascending trace numbers
 	CollidingTraces bool // with PresetTraces: sometimes derive them from the header only, so equal headers get equal traces
 
@@ -256,7 +260,7 @@ func (o Opts) plans() (map[string][]plan, []string, error) {
 			continue
 		}
 		for _, cat := range cats {
-			if !compatible(sec, cat) {
+			if !compatible(sec, cat) && !(o.IATCorrections && sec == ach.IAT && cat == ach.CategoryNOC) {
 				continue
 			}
 			for _, scc := range serviceClasses(sec, cat) {
